@@ -213,8 +213,9 @@ class C15(Prop):
             tr.nrows = tr.nrows * max(1, len(other['rows']))
             return {'op': 'joinOn', 'how': how, 'cond': cond, 'other': other}
         if kind == 'drop':
-            cols = [rng.choice(uniq + ['zz']) for _ in range(rng.randint(1, 2))] if uniq else ['zz']
-            keep = [i for i, n in enumerate(names) if not (n in cols and names.count(n) == 1)]
+            # (also a name that several columns carry: all of them go)
+            cols = [rng.choice(names + uniq + ['zz']) for _ in range(rng.randint(1, 2))] if names else ['zz']
+            keep = [i for i, n in enumerate(names) if n not in cols]
             tr.names, tr.types = [names[i] for i in keep], [types[i] for i in keep]
             return {'op': 'drop', 'cols': cols}
         if kind == 'dropRef':
